@@ -175,7 +175,7 @@ pub fn decode_edits(data: &[u8]) -> c04::Hist {
         ops.push(match k % 22 {
             0..=9 => {
                 let payload = if k >= 128 { Some(PAYLOADS[(sp >> 4) as usize % PAYLOADS.len()].to_string()) } else { None };
-                c04::Op::Enter { num, zeros, blanks, gap, payload, rem: k % 22 >= 8 }
+                c04::Op::Enter { num, zeros, blanks, gap, payload, rem: k % 22 == 8, stop: k % 22 == 9 }
             }
             10..=13 => c04::Op::Delete { num, zeros, blanks, trailing: gap },
             14..=16 => c04::Op::Fail { num, zeros, kind: (sp >> 4) % 6 },
